@@ -206,13 +206,15 @@ func init() {
 		return strings.Join(out, ";")
 	})
 	// numeric: args = via (0 DecodeNumeric, 1 DecodeType(1700), 2/3 ParseJSONB), blob, hint
-	core.Register("numeric", func(args []string) string {
+	numericH := func(args []string) string {
 		via := core.Atoi(args[0])
 		if via >= 2 {
 			via = 2
 		}
 		return showJ(call(via, core.Unhex(args[1])), args[2:]...)
-	})
+	}
+	core.Register("numeric", numericH)
+	core.Register("numround", numericH) // same entry points, generator sweeps the decimal exponent (<= 12 digits)
 	// jsonb: args = via (0 ParseJSONB, 1 DecodeType(3802)), blob, hints of the spec [, hints of the model]
 	// DecodeType's fallback (the input itself as a string, invalid UTF-8 replaced by '.') is rendered as the
 	// raw input, which is how the model renders it.
